@@ -124,3 +124,64 @@ Example C13_name_rec_means : forall ls t c ttl ls2,
   plain_record (name_rec ls t c ttl ls2) =
   wire_of_labels ls ++ be16_bytes t ++ be16_bytes c ++ be32_bytes ttl ++ be16_bytes (N.of_nat (length (wire_of_labels ls2))) ++ wire_of_labels ls2.
 Proof. reflexivity. Qed.
+
+(** ... and for the remaining builders of the grammar - MX (preference + one name), SOA (two names + twenty bytes), TXT (the text in
+    character-strings) and DS: each returns the pointer-free encoding of a record well-formed in every context, with the labels of
+    the texts handed in.  Together with C13_built_record_is_insertable (A, AAAA) and C13_built_name_record_is_insertable (NS, CNAME,
+    PTR) this covers all nine record types of the grammar: whatever a builder returns is a record C09_insert_effect /
+    C08_insert_view take, so inserting it into the answer, authority or additional section of an accepted packet, when insert_rr
+    succeeds, leaves accepted bytes reading as the old message plus that record, with the view of their parse. *)
+Theorem C13_built_mx_record_is_insertable : forall name ttl pref mxhost rr,
+  build_mx name ttl pref mxhost = Ok rr -> (ttl < 4294967296)%N ->
+  exists ls ls2, Forall label_ok ls /\ Forall label_ok ls2 /\
+    (name = dotted ls \/ name = dots ls \/ (name = [46%N] /\ ls = [])) /\
+    (mxhost = dotted ls2 \/ mxhost = dots ls2 \/ (mxhost = [46%N] /\ ls2 = [])) /\
+    rr = plain_record (mx_rec ls CLASS_IN ttl pref ls2) /\ plain_rr_ok (mx_rec ls CLASS_IN ttl pref ls2).
+Proof. exact build_mx_is_plain_record. Qed.
+Print Assumptions C13_built_mx_record_is_insertable.
+
+Theorem C13_built_soa_record_is_insertable : forall name ttl primary_ns contact ts refresh retry auth neg rr,
+  build_soa name ttl primary_ns contact ts refresh retry auth neg = Ok rr -> (ttl < 4294967296)%N ->
+  exists ls ls1 ls2, Forall label_ok ls /\ Forall label_ok ls1 /\ Forall label_ok ls2 /\
+    (name = dotted ls \/ name = dots ls \/ (name = [46%N] /\ ls = [])) /\
+    (primary_ns = dotted ls1 \/ primary_ns = dots ls1 \/ (primary_ns = [46%N] /\ ls1 = [])) /\
+    (contact = dotted ls2 \/ contact = dots ls2 \/ (contact = [46%N] /\ ls2 = [])) /\
+    let tail := be32_bytes ts ++ be32_bytes refresh ++ be32_bytes retry ++ be32_bytes auth ++ be32_bytes neg in
+    rr = plain_record (soa_rec ls CLASS_IN ttl ls1 ls2 tail) /\ plain_rr_ok (soa_rec ls CLASS_IN ttl ls1 ls2 tail).
+Proof. exact build_soa_is_plain_record. Qed.
+Print Assumptions C13_built_soa_record_is_insertable.
+
+Theorem C13_built_txt_record_is_insertable : forall name ttl txt rr,
+  build_txt name ttl txt = Ok rr -> bytes_ok txt -> (ttl < 4294967296)%N ->
+  exists ls, Forall label_ok ls /\ (name = dotted ls \/ name = dots ls \/ (name = [46%N] /\ ls = [])) /\
+    let rd := chunks255 (length txt + 1) txt in
+    rr = plain_record (raw_rec ls TYPE_TXT CLASS_IN ttl rd) /\ plain_rr_ok (raw_rec ls TYPE_TXT CLASS_IN ttl rd).
+Proof. exact build_txt_is_plain_record. Qed.
+Print Assumptions C13_built_txt_record_is_insertable.
+
+Theorem C13_built_ds_record_is_insertable : forall name ttl key_tag alg dtype digest rr,
+  build_ds name ttl key_tag alg dtype digest = Ok rr -> bytes_ok digest -> (alg < 256)%N -> (dtype < 256)%N -> (ttl < 4294967296)%N ->
+  exists ls, Forall label_ok ls /\ (name = dotted ls \/ name = dots ls \/ (name = [46%N] /\ ls = [])) /\
+    let rd := be16_bytes key_tag ++ [alg; dtype] ++ digest in
+    rr = plain_record (raw_rec ls TYPE_DS CLASS_IN ttl rd) /\ plain_rr_ok (raw_rec ls TYPE_DS CLASS_IN ttl rd).
+Proof. exact build_ds_is_plain_record. Qed.
+Print Assumptions C13_built_ds_record_is_insertable.
+
+Example C13_mx_soa_rec_mean :
+  (forall ls c ttl pref ls2, plain_record (mx_rec ls c ttl pref ls2) =
+     wire_of_labels ls ++ be16_bytes TYPE_MX ++ be16_bytes c ++ be32_bytes ttl ++
+     be16_bytes (N.of_nat (length (be16_bytes pref ++ wire_of_labels ls2))) ++ be16_bytes pref ++ wire_of_labels ls2) /\
+  (forall ls c ttl ls1 ls2 tail, plain_record (soa_rec ls c ttl ls1 ls2 tail) =
+     wire_of_labels ls ++ be16_bytes TYPE_SOA ++ be16_bytes c ++ be32_bytes ttl ++
+     be16_bytes (N.of_nat (length (wire_of_labels ls1 ++ wire_of_labels ls2 ++ tail))) ++ wire_of_labels ls1 ++ wire_of_labels ls2 ++ tail).
+Proof. split; reflexivity. Qed.
+
+(** a built SOA record inserted into the authority section of a small response *)
+Example C13_built_soa_insert_runs :
+  match build_soa [97]%N 9 [110; 46; 97]%N [104; 46; 97]%N 1 2 3 4 5,
+        parse [0;7; 129;128; 0;1; 0;0; 0;0; 0;0;  1;97;0; 0;1; 0;1]%N with
+  | Ok rr, Ok v => let '(s, r) := m_insert_rr SNameServers rr (v, it_new SAnswer) in
+                   (match parse (pp_packet (fst s)) with Ok f => pp_offset_nameservers f | _ => None end, pp_offset_nameservers (fst s), r)
+  | _, _ => (None, None, Err InvalidPacket)
+  end = (Some 19, Some 19, Ok tt).
+Proof. vm_compute. reflexivity. Qed.
